@@ -69,3 +69,17 @@ Proof.
   fold (step_cap (C + frag_bytes (subs_of bytes))). fold (step_cap (C + 26 * len bytes)).
   apply Z.mul_le_mono_nonneg_l; [apply Z.mul_nonneg_nonneg; lia|exact M].
 Qed.
+
+(* the reassembly buffers a datagram makes the handlers fill hold bytes that were RECEIVED: at most
+   (bytes already buffered + 26 per datagram byte) per submessage and reader, whatever data_size,
+   fragment_size and fragment counts announce *)
+Theorem datagram_alloc_bounded : forall C st bytes, 0 <= C ->
+  InvC C st -> C + 26 * len bytes <= FRAG_CAP -> bytes_ok bytes ->
+  0 <= datagram_alloc st bytes <= alloc_bound (len (subs_of bytes)) (len (ps_readers st)) (C + 26 * len bytes).
+Proof.
+  intros C st bytes HC0 HI HC HK. pose proof (frag_bytes_linear bytes) as [F0 F1].
+  pose proof (datagram_alloc_bound C st bytes HC0 HI ltac:(lia) (decoded_in_range bytes HK)) as [S0 S1]. split; [exact S0|].
+  eapply Z.le_trans; [exact S1|]. unfold alloc_bound.
+  pose proof (len_nonneg _ (subs_of bytes)). pose proof (len_nonneg _ (ps_readers st)).
+  apply Z.mul_le_mono_nonneg_l; [apply Z.mul_nonneg_nonneg; lia|lia].
+Qed.
